@@ -147,6 +147,13 @@ func bindingType(p string, t Type, lookup *TypeLookup) (Type, error) {
 	case *TypedMapType:
 		r, err := bindingType(p, t.Elem, lookup)
 		if r != nil {
+			if id := r.TypeId(); id.MapDim != 0 {
+				// There is no type for a typed map of maps.
+				return nil, &IncompatibleTypeError{
+					Message: "projecting " + p + " through a typed map " +
+						"would result in a map<" + id.str() + ">",
+				}
+			}
 			return lookup.GetMap(r), err
 		}
 		return r, err
